@@ -11,7 +11,7 @@ from typing import List
 from ..cfg import cfg_of, no_exc
 from ..model import AnalysisError, norm, unparse, walk_shallow
 from ..report import Check
-from ..rules import branch_reaches_exit, call_sites, calls_in_func, last_name
+from ..rules import Resolver, branch_reaches_exit, call_sites, calls_in_func, last_name
 
 
 def _calls(n) -> List[ast.Call]:
@@ -35,31 +35,42 @@ def do_step(chk: Check) -> None:
     cfg = cfg_of(ds)
     steps = [n for n in cfg.nodes if any(norm(c.func) == 'self._stepper.step' for c in _calls(n))]
     chk.ob('DOM-one-instruction', ds, len(steps) == 1, 'one outline instruction is executed per call of _do_step (one RUNNING state)', kind='single-step-call')
-    # the decision: continue the chain exactly when the stepper is unfinished and the value is None / a context assignment
-    tests = [t for t in cfg.nodes if t.kind == 'test' and 'finished' in norm(t.ast.test) and 'return_value' in norm(t.ast.test)]
-    ok = False
-    if tests:
-        t = tests[0].ast.test
-        if isinstance(t, ast.BoolOp) and isinstance(t.op, ast.And) and len(t.values) == 2:
-            a, b = t.values
-            alts = sorted(norm(v) for v in b.values) if isinstance(b, ast.BoolOp) and isinstance(b.op, ast.Or) else []
-            ok = norm(a) == 'not finished' and alts == ['isinstance(return_value, ToContext)', 'return_value is None']
-    chk.ob('DOM-one-instruction', ds, ok, 'the chain goes on exactly when the stepper is not finished and the step returned None or a context assignment; '
-           'any other value stops it', node=tests[0].ast if tests else None, kind='continue-condition')
-    if tests:
-        t = tests[0]
-        true_side = cfg.reachable([s for s, l in t.succ if l == 'true'], include_src=True, edge_ok=no_exc)
-        false_side = cfg.reachable([s for s, l in t.succ if l == 'false'], include_src=True, edge_ok=no_exc)
-        rets = [n for n in cfg.nodes if n.kind == 'return']
-        cont = [r for r in rets if isinstance(r.ast.value, ast.Call) and last_name(r.ast.value) in ('Continue', 'Wait')]
-        plain = [r for r in rets if norm(r.ast.value) == 'return_value']
-        ok = bool(cont) and bool(plain) and all(r.id in true_side and r.id not in false_side for r in cont) and all(r.id in false_side and r.id not in true_side for r in plain)
-        chk.ob('DOM-one-instruction', ds, ok, 'Continue/Wait are returned only on the go-on branch, the value itself on the other', kind='branches')
-        chk.ob('DOM-one-instruction', ds, all(r.ast.value.args and norm(r.ast.value.args[0]) == 'self._do_step' for r in cont), 'the chain continues with _do_step itself',
-               kind='continues-with-do-step')
-        # the true branch always returns a command (no fall-through to "return return_value" with an unfinished stepper)
-        ok = not any(r.id in true_side for r in plain)
-        chk.ob('DOM-one-instruction', ds, ok, 'an unfinished chain never finishes the process by falling through', kind='no-fallthrough')
+    # the decision, as a table over the three leaves it depends on (any spelling: compound test, early returns, De Morgan)
+    from ..decisions import paths_under, valuations
+    ff = chk.ctx.facts.analyse(ds)
+    unpack = [n for n in ast.walk(ds.node) if isinstance(n, ast.Assign) and isinstance(n.targets[0], ast.Tuple) and len(n.targets[0].elts) == 2
+              and isinstance(n.value, ast.Call) and norm(n.value.func) == 'self._stepper.step']
+    chk.need(len(unpack) == 1, '_do_step: "finished, value = self._stepper.step()" not found')
+    fin, rv = [norm(e) for e in unpack[0].targets[0].elts]
+    p, q, r = fin, f'{rv} is None', f'isinstance({rv}, ToContext)'
+    bad = []
+    n_paths = 0
+    reg_bad = []
+    for val in valuations([p, q, r], lambda v: not (v[q] and v[r])):
+        expect = 'command' if (not val[p] and (val[q] or val[r])) else 'value'
+        for path in paths_under(ff, val, frozen=[fin, rv]):
+            if path[-1] is not cfg.exit:
+                continue
+            n_paths += 1
+            rets = [m for m in path if m.kind == 'return']
+            got = 'fall-through'
+            if rets:
+                v_ = rets[-1].ast.value
+                got = 'command' if isinstance(v_, ast.Call) and last_name(v_) in ('Continue', 'Wait') else ('value' if v_ is not None and norm(v_) == rv else norm(v_))
+            if got != expect:
+                bad.append((dict(val), got))
+            registered = any(any(norm(c.func) == 'self.to_context' for c in _calls(m)) for m in path)
+            if expect == 'command' and registered != val[r]:
+                reg_bad.append(dict(val))
+    chk.units['do_step_paths'] = n_paths
+    chk.ob('DOM-one-instruction', ds, not bad and n_paths >= 6, 'decision table over (finished, value is None, value is a ToContext): the chain goes on (Continue/Wait) exactly '
+           'when the stepper is not finished and the step returned None or a context assignment; in every other case the value itself is returned' +
+           (f'; deviations: {bad[:3]}' if bad else ''), kind='continue-condition')
+    chk.ob('DOM-one-instruction', ds, not reg_bad, 'a returned ToContext -- and only that -- is registered through to_context before continuing', kind='tocontext-iff')
+    rets = [n for n in cfg.nodes if n.kind == 'return']
+    cont = [r_ for r_ in rets if isinstance(r_.ast.value, ast.Call) and last_name(r_.ast.value) in ('Continue', 'Wait')]
+    chk.ob('DOM-one-instruction', ds, bool(cont) and all(r_.ast.value.args and norm(r_.ast.value.args[0]) == 'self._do_step' for r_ in cont), 'the chain continues with _do_step itself',
+           kind='continues-with-do-step')
     # return propagation
     handlers = [h for tr in ast.walk(ds.node) if isinstance(tr, ast.Try) for h in tr.handlers if h.type is not None and norm(h.type) == '_PropagateReturn']
     ok = len(handlers) == 1
@@ -85,7 +96,7 @@ def do_step(chk: Check) -> None:
     rs = prog.func('workchains._ReturnStepper.step')
     rcfg = cfg_of(rs)
     raises = [n for n in rcfg.nodes if n.kind == 'raisestmt']
-    ok = len(raises) == 1 and norm(raises[0].ast.exc) == '_PropagateReturn(self._return_instruction._exit_code)' and not any(n.kind == 'return' for n in rcfg.nodes)
+    ok = len(raises) == 1 and Resolver(rs).text(raises[0].ast.exc) == '_PropagateReturn(self._return_instruction._exit_code)' and not any(n.kind == 'return' for n in rcfg.nodes)
     chk.ob('DOM-return-propagation', rs, ok, 'a return instruction always raises _PropagateReturn with its exit code', kind='return-stepper-raises')
     rc = prog.func('workchains._Return.__call__')
     rets = [n for n in ast.walk(rc.node) if isinstance(n, ast.Return)]
@@ -98,7 +109,7 @@ def return_shapes(chk: Check) -> None:
     st = prog.cls('workchains.Stepper')
     n = 0
     for c in prog.subclasses(st):
-        f = c.methods.get('step')
+        f = prog.view(c.methods.get('step'))
         if f is None:
             continue
         n += 1
@@ -111,7 +122,7 @@ def return_shapes(chk: Check) -> None:
     chk.floor('DOM-step-shape', n, 5)
     fs = prog.func('workchains._FunctionStepper.step')
     rets = [r for r in ast.walk(fs.node) if isinstance(r, ast.Return)]
-    chk.ob('DOM-step-shape', fs, len(rets) == 1 and norm(rets[0].value) == '(True, self._fn(self._workchain))', 'a function step calls the step once with the workchain, is finished '
+    chk.ob('DOM-step-shape', fs, len(rets) == 1 and Resolver(fs).text(rets[0].value) == '(True, self._fn(self._workchain))' and len(calls_in_func(fs)) == 1, 'a function step calls the step once with the workchain, is finished '
            'afterwards and hands back its return value', kind='function-step')
 
 
@@ -163,60 +174,112 @@ def if_stepper(chk: Check) -> None:
            kind='finished-definition')
 
 
+def _step_unpack(f):
+    """``finished, value = self._child_stepper.step()`` -> (finished-name, value-name, call)"""
+    u = [n for n in ast.walk(f.node) if isinstance(n, ast.Assign) and isinstance(n.targets[0], ast.Tuple) and len(n.targets[0].elts) == 2
+         and isinstance(n.value, ast.Call) and norm(n.value.func) == 'self._child_stepper.step']
+    if len(u) != 1:
+        return None
+    return norm(u[0].targets[0].elts[0]), norm(u[0].targets[0].elts[1]), u[0].value
+
+
+def _ret_tuple(ff, node):
+    v = node.ast.value
+    if isinstance(v, ast.Tuple) and len(v.elts) == 2:
+        return [ff.canon.key(e) for e in v.elts]
+    return None
+
+
 def while_stepper(chk: Check) -> None:
+    """Decision table over (a body iteration is in progress, the predicate holds, the body step finished the iteration)."""
+    from ..decisions import leaf, paths_under, valuations
     prog = chk.prog
     f = prog.func('workchains._WhileStepper.step')
-    cfg = cfg_of(f)
     ff = chk.ctx.facts.analyse(f)
-    tests = [t for t in cfg.nodes if t.kind == 'test' and any(last_name(c) == 'is_true' for c in _calls(t))]
-    chk.ob('DOM-while-reevaluation', f, len(tests) == 1, 'the loop predicate is evaluated at one site', kind='single-predicate-site')
-    if not tests:
+    cfg = ff.cfg
+    pred_calls = [c for c in calls_in_func(f, 'is_true')]
+    chk.ob('DOM-while-reevaluation', f, len(pred_calls) == 1, 'the loop predicate is evaluated at one site', kind='single-predicate-site')
+    up = _step_unpack(f)
+    chk.ob('DOM-while-reevaluation', f, up is not None, 'the body is stepped at one site', kind='single-body-step')
+    if len(pred_calls) != 1 or up is None:
         return
-    t = tests[0]
-    chk.ob('DOM-while-reevaluation', f, any(a == ('none', 'self._child_stepper') for a in ff.at(t)), 'the predicate is evaluated only when no iteration is in progress',
-           node=t.ast, kind='only-without-child')
-    # every path without a live child evaluates it: the child-step call is dominated by "child exists" or by the predicate
-    steps = [n for n in cfg.nodes if any(norm(c.func) == 'self._child_stepper.step' for c in _calls(n))]
-    none_tests = [x for x in cfg.nodes if x.kind == 'test' and ('none', 'self._child_stepper') in ff.cond_atoms(x.ast.test, True) | ff.cond_atoms(x.ast.test, False)]
-    ok = bool(steps) and bool(none_tests)
-    if ok:
-        nt = none_tests[0]
-        none_label = 'true' if ('none', 'self._child_stepper') in ff.cond_atoms(nt.ast.test, True) else 'false'
-        starts = [s for s, l in nt.succ if l == none_label]
-        ok = all(cfg.must_pass(s, steps + [cfg.exit], lambda m: m is t, edge_ok=no_exc) for s in starts) and cfg.must_pass(cfg.entry, steps, lambda m: m is nt, edge_ok=no_exc)
-    chk.ob('DOM-while-reevaluation', f, ok, 'whenever no iteration is in progress the predicate is (re-)evaluated before anything of the body runs', kind='reevaluated-before-body')
-    false_rets = cfg.reachable([s for s, l in t.succ if l == 'false'], include_src=True, edge_ok=no_exc)
-    rets = [r for r in cfg.nodes if r.kind == 'return' and r.id in false_rets]
-    ok = bool(rets) and all(norm(r.ast.value) == '(True, None)' for r in rets) and not any(s.id in false_rets for s in steps)
-    chk.ob('DOM-while-reevaluation', f, ok, 'a false predicate finishes the loop without running the body', kind='false-finishes')
-    true_side = cfg.reachable([s for s, l in t.succ if l == 'true'], include_src=True, edge_ok=no_exc)
-    creates = [c for c in calls_in_func(f, 'create_stepper')]
-    ok = len(creates) == 1 and norm(creates[0].func.value) == 'self._while_instruction.body' and all(n.id in true_side for n in cfg.nodes_containing(creates[0]))
-    chk.ob('DOM-while-reevaluation', f, ok, 'a true predicate starts a new iteration of the body', kind='true-starts-body')
-    drop = [n for n in cfg.nodes if n.kind == 'stmt' and isinstance(n.ast, ast.Assign) and norm(n.ast.targets[0]) == 'self._child_stepper' and norm(n.ast.value) == 'None']
-    fin_tests = [x for x in cfg.nodes if x.kind == 'test' and norm(x.ast.test) == 'finished']
-    ok = bool(drop) and bool(fin_tests) and all(d.id in cfg.reachable([s for s, l in fin_tests[0].succ if l == 'true'], include_src=True, edge_ok=no_exc) for d in drop)
-    chk.ob('DOM-while-reevaluation', f, ok, 'a finished iteration is dropped, so the next call re-evaluates the predicate', kind='iteration-dropped')
-    after = [r for r in cfg.nodes if r.kind == 'return' and any(r.id in cfg.reachable([s], edge_ok=no_exc) for s in steps)]
-    chk.ob('DOM-while-reevaluation', f, bool(after) and all(norm(r.ast.value) == '(False, result)' for r in after), 'after a body step the loop itself is never finished '
-           '(only a false predicate ends it) and the step\'s value is handed up', kind='never-finished-after-body')
+    pc = pred_calls[0]
+    ok_pred = norm(pc.func.value) == 'self._while_instruction' and [norm(a) for a in pc.args] == ['self._workchain']
+    chk.ob('DOM-while-reevaluation', f, ok_pred, 'the predicate evaluated is the loop\'s own, with the workchain', node=pc, kind='predicate-call')
+    fin, res, step_call = up
+    CHILD, PRED = 'self._child_stepper is None', leaf(ff, pc)[0]
+    pred_nodes = cfg.nodes_containing(pc)
+    step_nodes = cfg.nodes_containing(step_call)
+    create = [c for c in calls_in_func(f, 'create_stepper')]
+    create_nodes = [m for c in create for m in cfg.nodes_containing(c)]
+    ok_create = len(create) == 1 and norm(create[0].func.value) == 'self._while_instruction.body'
+    chk.ob('DOM-while-reevaluation', f, ok_create, 'a new iteration runs the loop body', kind='body-from-instruction')
+    drop_nodes = [n for n in cfg.nodes if n.kind == 'stmt' and isinstance(n.ast, ast.Assign) and norm(n.ast.targets[0]) == 'self._child_stepper' and norm(n.ast.value) == 'None']
+    dev = []
+    n_paths = 0
+    for val in valuations([CHILD, PRED, fin]):
+        for path in paths_under(ff, val, frozen=[fin, res]):
+            if path[-1] is not cfg.exit:
+                continue
+            n_paths += 1
+            saw_pred = any(m in pred_nodes for m in path)
+            saw_step = any(m in step_nodes for m in path)
+            saw_create = any(m in create_nodes for m in path)
+            saw_drop = any(m in drop_nodes for m in path)
+            rets = [m for m in path if m.kind == 'return']
+            rt = _ret_tuple(ff, rets[-1]) if rets else None
+            no_iter = val[CHILD]
+            exp_pred = no_iter
+            exp_body = (not no_iter) or val[PRED]
+            checks = {
+                'predicate evaluated exactly when no iteration is in progress': saw_pred == exp_pred,
+                'body stepped exactly when an iteration is in progress or the predicate holds': saw_step == exp_body,
+                'a new body stepper is created exactly when none is in progress and the predicate holds': saw_create == (no_iter and val[PRED]),
+                'predicate before body': (not (saw_pred and saw_step)) or min(i for i, m in enumerate(path) if m in pred_nodes) < min(i for i, m in enumerate(path) if m in step_nodes),
+                'false predicate finishes the loop': exp_body or rt == ['True', 'None'],
+                'after a body step the loop is not finished and hands the value up': (not exp_body) or rt == ['False', res],
+                'a finished iteration is dropped (predicate re-evaluated next time), an unfinished one kept': (not exp_body) or saw_drop == val[fin],
+            }
+            for k, okk in checks.items():
+                if not okk:
+                    dev.append((k, dict(val)))
+    chk.units['while_paths'] = n_paths
+    for k in ['predicate evaluated exactly when no iteration is in progress', 'body stepped exactly when an iteration is in progress or the predicate holds',
+              'a new body stepper is created exactly when none is in progress and the predicate holds', 'predicate before body', 'false predicate finishes the loop',
+              'after a body step the loop is not finished and hands the value up',
+              'a finished iteration is dropped (predicate re-evaluated next time), an unfinished one kept']:
+        bad = [v for kk, v in dev if kk == k]
+        chk.ob('DOM-while-reevaluation', f, not bad and n_paths >= 4, f'decision table over (iteration in progress, predicate, body step finished): {k}' + (f'; fails for {bad[:2]}' if bad else ''),
+               kind=k.split(' (')[0].replace(' ', '-')[:60])
 
 
 def block_stepper(chk: Check) -> None:
+    from ..decisions import paths_under, valuations
     prog = chk.prog
     f = prog.func('workchains._BlockStepper.step')
-    cfg = cfg_of(f)
-    steps = [n for n in cfg.nodes if any(norm(c.func) == 'self._child_stepper.step' for c in _calls(n))]
-    chk.ob('DOM-block-sequence', f, len(steps) == 1, 'a block executes one instruction per call', kind='single-child-step')
-    fin_tests = [x for x in cfg.nodes if x.kind == 'test' and norm(x.ast.test) == 'finished']
-    nxt = [n for n in cfg.nodes if any(norm(c.func) == 'self.next_instruction' for c in _calls(n))]
-    ok = len(fin_tests) == 1 and len(nxt) == 1 and nxt[0].id in cfg.reachable([s for s, l in fin_tests[0].succ if l == 'true'], include_src=True, edge_ok=no_exc) \
-        and nxt[0].id not in cfg.reachable([s for s, l in fin_tests[0].succ if l == 'false'], include_src=True, edge_ok=no_exc)
-    chk.ob('DOM-block-sequence', f, ok, 'the block advances exactly when the current instruction is finished', kind='advance-iff-finished')
-    rets = [r for r in cfg.nodes if r.kind == 'return']
-    canon = chk.ctx.facts.analyse(f).canon
-    chk.ob('DOM-block-sequence', f, len(rets) == 1 and isinstance(rets[0].ast.value, ast.Tuple) and [canon.key(e) for e in rets[0].ast.value.elts] == ['self.finished()', 'result'], 'the block reports finished-ness and the value of the instruction just run',
-           kind='returns-child-value')
+    ff = chk.ctx.facts.analyse(f)
+    cfg = ff.cfg
+    up = _step_unpack(f)
+    chk.ob('DOM-block-sequence', f, up is not None, 'a block executes one instruction per call', kind='single-child-step')
+    if up is not None:
+        fin, res, step_call = up
+        nxt = [n for n in cfg.nodes if any(norm(c.func) == 'self.next_instruction' for c in _calls(n))]
+        dev = []
+        n_paths = 0
+        for val in valuations([fin]):
+            for path in paths_under(ff, val, frozen=[fin, res]):
+                if path[-1] is not cfg.exit:
+                    continue
+                n_paths += 1
+                adv = sum(1 for m in path if m in nxt)
+                if adv != (1 if val[fin] else 0):
+                    dev.append((dict(val), adv))
+                rets = [m for m in path if m.kind == 'return']
+                rt = _ret_tuple(ff, rets[-1]) if rets else None
+                if rt != ['self.finished()', res]:
+                    dev.append((dict(val), rt))
+        chk.ob('DOM-block-sequence', f, not dev and n_paths >= 2, 'the block advances exactly once when the current instruction is finished, not at all otherwise, and reports '
+               '(its own finished-ness, the value of the instruction just run)' + (f'; deviations {dev[:2]}' if dev else ''), kind='advance-iff-finished')
     ni = prog.func('workchains._BlockStepper.next_instruction')
     incs = [n for n in ast.walk(ni.node) if isinstance(n, ast.AugAssign) and norm(n.target) == 'self._pos']
     ok = len(incs) == 1 and isinstance(incs[0].op, ast.Add) and norm(incs[0].value) == '1'
@@ -224,16 +287,23 @@ def block_stepper(chk: Check) -> None:
     creates = [c for c in calls_in_func(ni, 'create_stepper')]
     chk.ob('DOM-block-sequence', ni, len(creates) == 1 and norm(creates[0].func.value) == 'self._block[self._pos]', 'the next instruction executed is the one at the new position',
            kind='next-from-position')
-    fin = prog.func('workchains._BlockStepper.finished')
-    rets = [r for r in ast.walk(fin.node) if isinstance(r, ast.Return)]
-    chk.ob('DOM-block-sequence', fin, len(rets) == 1 and norm(rets[0].value) == 'self._pos == len(self._block)', 'finished means "position past the last instruction"', kind='finished-definition')
+    if creates and incs:
+        ncfg = cfg_of(ni)
+        inc_nodes = [m for m in ncfg.nodes if m.ast is incs[0]]
+        cr_nodes = ncfg.nodes_containing(creates[0])
+        chk.ob('DOM-block-sequence', ni, all(ncfg.must_pass(ncfg.entry, [c], lambda m: m in inc_nodes, edge_ok=no_exc) for c in cr_nodes), 'the position is advanced before the next stepper is created',
+               kind='advance-before-create')
+    fin_f = prog.func('workchains._BlockStepper.finished')
+    rets = [r for r in ast.walk(fin_f.node) if isinstance(r, ast.Return)]
+    chk.ob('DOM-block-sequence', fin_f, len(rets) == 1 and norm(rets[0].value) in ('self._pos == len(self._block)', 'len(self._block) == self._pos', 'self._pos >= len(self._block)'),
+           'finished means "position past the last instruction"', kind='finished-definition')
     init = prog.func('workchains._BlockStepper.__init__')
     creates = [c for c in calls_in_func(init, 'create_stepper')]
     pos0 = any(isinstance(n, (ast.Assign, ast.AnnAssign)) and norm(n.targets[0] if isinstance(n, ast.Assign) else n.target) == 'self._pos' and norm(n.value) == '0' for n in ast.walk(init.node))
     chk.ob('DOM-block-sequence', init, pos0 and len(creates) == 1 and norm(creates[0].func.value) in ('self._block[0]', 'self._block[self._pos]'), 'a block starts at its first instruction',
            kind='starts-at-first')
     blk = prog.func('workchains._Block.__init__')
-    ok = any(isinstance(n, ast.For) and norm(n.iter) == blk.params[1] for n in ast.walk(blk.node))
+    ok = any(isinstance(n, (ast.For, ast.ListComp, ast.comprehension)) and norm(n.iter if not isinstance(n, ast.ListComp) else n.generators[0].iter) == blk.params[1] for n in ast.walk(blk.node))
     chk.ob('DOM-block-sequence', blk, ok, 'a block keeps the instructions in the order given in the outline', kind='order-kept')
 
 
